@@ -378,8 +378,8 @@ pub fn workers_collect(rep: &mut Report, ctx: &Ctx, stage: &str, worker_id: &str
 /// with VERIF_INPROC set and translate its fate.
 pub fn replay_in_child(id: &str, stage: &str, case: &Value) -> Result<(), String> {
     let exe = std::env::current_exe().map_err(|e| format!("HARNESS: {e}"))?;
-    let tmp = format!("/verif/.work/{}-replay-{}.json", id, std::process::id());
-    std::fs::create_dir_all("/verif/.work").ok();
+    let tmp = format!("{}/.work/{}-replay-{}.json", crate::util::root(), id, std::process::id());
+    std::fs::create_dir_all(format!("{}/.work", crate::util::root())).ok();
     std::fs::write(&tmp, serde_json::json!({"stage": stage, "case": case}).to_string()).map_err(|e| format!("HARNESS: {e}"))?;
     let mut child = std::process::Command::new(exe).args([id, "--replay", &tmp]).env("VERIF_INPROC", "1").stdout(std::process::Stdio::piped()).stderr(std::process::Stdio::null()).spawn().map_err(|e| format!("HARNESS: {e}"))?;
     // wall-clock bound for a replay: generous (a replayed case takes milliseconds)
